@@ -13,6 +13,7 @@ import RB.Proofs.Lemmas.Identity
 import RB.Proofs.Lemmas.Text
 import RB.Proofs.Lemmas.DataFile
 import RB.Model.Session
+import RB.Proofs.C15
 
 namespace RB.Identity
 
@@ -105,6 +106,50 @@ theorem c07_fmt6_bound (q : Rat) : ∃ v, readFixed (fmt6 q) = some v ∧ |v - q
     constructor <;> linarith [this.1, this.2]
   · simp only [h, if_false]
     exact ⟨_, readFixed_fmtMicro _, roundMicro_bound q (by linarith)⟩
+
+/-- what the next session reads back for a sample written with `"%f"` -/
+def reloadVal (q : Rat) : Rat := (readFixed (fmt6 q)).getD 0
+
+theorem reloadVal_bound (q : Rat) : |reloadVal q - q| ≤ 1 / 2000000 := by
+  obtain ⟨v, hv, hb⟩ := c07_fmt6_bound q
+  simpa [reloadVal, hv] using hb
+
+theorem sum_reload_bound (xs : List Rat) :
+    |RB.Stats.sum (xs.map reloadVal) - RB.Stats.sum xs| ≤ (xs.length : Rat) * (1 / 2000000) := by
+  induction xs with
+  | nil => simp [RB.Stats.sum_nil]
+  | cons x xs ih =>
+    simp only [List.map_cons, RB.Stats.sum_cons, List.length_cons]
+    have hx := reloadVal_bound x
+    rw [abs_le] at hx ih ⊢
+    push_cast
+    constructor <;> linarith [hx.1, hx.2, ih.1, ih.2]
+
+/-- `stats_reload`: a session that reloads the samples recorded by an earlier
+one (each written with `"%f"`, read with `float`) computes the same sample
+count, and a mean within `5·10⁻⁷` of the recording session's mean — with the
+streaming statistics of C15 on both sides. -/
+theorem c07_stats_reload (xs : List Rat) (h : xs ≠ []) :
+    (RB.Stats.addAll RB.Stats.init (xs.map reloadVal)).n = (RB.Stats.addAll RB.Stats.init xs).n ∧
+    |(RB.Stats.addAll RB.Stats.init (xs.map reloadVal)).mean - (RB.Stats.addAll RB.Stats.init xs).mean|
+      ≤ 1 / 2000000 := by
+  have h' : xs.map reloadVal ≠ [] := by simpa using h
+  refine ⟨by rw [RB.Stats.c15_count, RB.Stats.c15_count]; simp, ?_⟩
+  rw [RB.Stats.c15_mean _ h, RB.Stats.c15_mean _ h']
+  unfold RB.Stats.tmean
+  have hn : (0 : Rat) < (xs.length : Rat) := by
+    have : 0 < xs.length := List.length_pos_of_ne_nil h
+    exact_mod_cast this
+  simp only [List.length_map]
+  rw [← sub_div]
+  have hs := sum_reload_bound xs
+  rw [abs_le] at hs ⊢
+  constructor
+  · rw [le_div_iff₀ hn]; linarith [hs.1]
+  · rw [div_le_iff₀ hn]; linarith [hs.2]
+
+-- non-vacuity
+example : ([25 / 2, 1 / 3] : List Rat) ≠ [] := by simp
 
 theorem sepFree_noTab {s : List Char} (h : sepFree s = true) : '\t' ∉ s := by
   intro hm
